@@ -28,7 +28,7 @@ ASSUMPTIONS = [
     "creation date is excluded from metafile comparison",
 ]
 BUDGET = {
-    "quick": {"examples": 300, "workers": 8, "time_cap": 80},
+    "quick": {"examples": 450, "workers": 8, "time_cap": 80},
     "thorough": {"examples": 2500, "workers": 14, "time_cap": 900},
 }
 HERE = os.path.dirname(os.path.dirname(os.path.dirname(os.path.abspath(__file__))))
